@@ -302,6 +302,7 @@ GHOST static void gsl_check(int idx, long req_us, uint64_t d_call, uint64_t d_re
   // virtual clock: tick i is delivered at 5*i ms.  The call happened before tick d_call+1,
   // the return after tick d_ret: elapsed >= 5 ms * (d_ret - d_call - 1)
   long long elapsed_us = ((long long)d_ret - (long long)d_call - 1) * FIBER_TIME_RESOLUTION_MS * 1000LL;
+  if (elapsed_us < 0) elapsed_us = 0;  // time does not run backwards: a 0-duration request is always satisfied
   if (elapsed_us < req_us)
     vs_violation("early_wake", "fiber %d: sleep kind %d of %ld us returned after at most %lld us of virtual time (ticks %llu -> %llu)", idx, kind, req_us,
                  elapsed_us + FIBER_TIME_RESOLUTION_MS * 1000LL, (unsigned long long)d_call, (unsigned long long)d_ret);
